@@ -22,6 +22,7 @@ RULE = (
 )
 ASSUMPTIONS = [
     "a change entry's lineNumber is accepted in original or in new-file numbering (the code reports the original node position, CodeTF's diffSide says 'right'; the statement does not choose)",
+    "a class statement with a body on following lines is a multi-line construct (exempt); a function definition counts as a one-line construct because the code matches it by its header line",
     "multi-line constructs are exempt from the line-number clause, as in the statement; sites are counted only where the unfiltered run replaces exactly one line by one line",
     "SAST codemods are out of this property's quantifier (find-and-fix codemods K)",
 ]
@@ -45,6 +46,27 @@ def single_line_sites(before: str, after: str):
         if tag == "replace" and i2 - i1 == 1 and j2 - j1 == 1 and a[i1].strip():
             sites.append((i1 + 1, j1 + 1, b[j1]))
     return sites
+
+
+def import_alias_lines(src: str):
+    """Physical lines that hold exactly one alias of a multi-line (parenthesised) import statement."""
+    import ast
+
+    out = set()
+    try:
+        tree = ast.parse(src)
+    except SyntaxError:
+        return out
+    for n in ast.walk(tree):
+        if isinstance(n, (ast.Import, ast.ImportFrom)) and n.end_lineno > n.lineno:
+            per_line = {}
+            for a in n.names:
+                if a.lineno == a.end_lineno:
+                    per_line.setdefault(a.lineno, []).append(a)
+            for l, al in per_line.items():
+                if len(al) == 1 and l != n.lineno:
+                    out.add(l)
+    return out
 
 
 def logical_line_ranges(src: str):
@@ -92,7 +114,7 @@ def line_case(draw, cid, seeds):
     n = draw(st.integers(2, 5))
     parts = []
     for _ in range(n):
-        parts.append({"code": draw(st.sampled_from(seeds)), "results": None, "ops": [["wrap", draw(st.sampled_from(["def", "def", "method", "nested", "async"]))]]})
+        parts.append({"code": draw(st.sampled_from(seeds)), "results": None, "ops": draw(st.sampled_from([[], [], [["mlimport"]]])) + [["wrap", draw(st.sampled_from(["def", "def", "method", "nested", "async"]))]]})
     return {
         "codemod": cid,
         "program": {"codemod": cid, "parts": parts, "file_ops": draw(st.lists(st.sampled_from([["prepend", 2, "comment"], ["eol", "crlf"], ["append", 1]]), max_size=1))},
@@ -102,11 +124,17 @@ def line_case(draw, cid, seeds):
         # file selection by include patterns works on relative paths
         "spelling": draw(st.sampled_from(SPELLINGS)),
         "with_file_pattern": draw(st.booleans()),
+        # a second file whose path ends in the same components (vendor/src/m0.py): a relative or absolute pattern for
+        # src/m0.py must not apply to it
+        "twin": draw(st.booleans()),
     }
 
 
-def run_once(cid, rd, extra_argv, root: Path):
-    obs = engine.run_batch([cid], [(None, rd)], extra_argv=extra_argv, keep_root=root)
+TWIN = "vendor/src/m0.py"
+
+
+def run_once(cid, rd, extra_argv, root: Path, twin=False):
+    obs = engine.run_batch([cid], [(None, rd)], extra_argv=extra_argv, keep_root=root, extra_files={TWIN: rd["data"]} if twin else None)
     return obs
 
 
@@ -119,9 +147,9 @@ def eval_case(case, stats=None):
         st_.discard("render-invalid")
         return []
     kind = engine.kind_of(engine.codemod_by_id(cid))
-    labels = ["kind:" + kind, "codemod:" + cid, "mode:" + case["mode"], "spelling:" + case["spelling"]]
+    labels = ["kind:" + kind, "codemod:" + cid, "mode:" + case["mode"], "spelling:" + case["spelling"]] + (["twin-file"] if case.get("twin") else [])
     with runner.scratch("c13u") as ru:
-        obs_u = run_once(cid, rd, [], Path(ru))
+        obs_u = run_once(cid, rd, [], Path(ru), case.get("twin"))
     if obs_u.res.exit != 0 or obs_u.res.report is None:
         st_.discard(f"unfiltered-exit-{obs_u.res.exit}")
         return []
@@ -139,10 +167,22 @@ def eval_case(case, stats=None):
     ranges = logical_line_ranges(before)
 
     def standalone(l):
+        # a `class` header whose body follows on later lines belongs to a multi-line construct (the code matches a
+        # ClassDef by its whole extent; only FunctionDef is matched by its header line, see UtilsMixin.node_position)
+        txt = before.split("\n")[l - 1].lstrip()
+        if txt.startswith("class ") and not txt.rstrip().endswith(("pass", "...")):
+            return False
         return ranges.get(l) == (l, l)
 
-    sites = [s for s in sites if (s[0] in entries_u or s[1] in entries_u) and standalone(s[0])]
-    L = [s[0] for s in sites]
+    alias_lines = import_alias_lines(before)
+    st_u = line_status(before, after_u)
+    # (measurement is conservative: the entry must name the line in original numbering, which is what the code
+    # reports; a line that merely coincides with another site's new number is not taken for a site)
+    sites = [s for s in sites if s[0] in entries_u and (standalone(s[0]) or s[0] in alias_lines)]
+    # an import alias on a line of its own inside a parenthesised import is a one-line construct too; the edit is
+    # usually the deletion of that line
+    deleted_alias_sites = sorted(l for l in alias_lines if l in entries_u and st_u.get(l, ("equal",))[0] == "other" and l not in [s[0] for s in sites])
+    L = sorted([s[0] for s in sites] + deleted_alias_sites)
     if len(L) < 2:
         st_.case([cid, core.sha(f_u.before), "few-sites"], False, labels + ["fewer-than-2-single-line-sites"])
         return []
@@ -160,7 +200,9 @@ def eval_case(case, stats=None):
         if case["with_file_pattern"]:
             # a file-level pattern that does not change which files are selected
             items = items + (["zz_nothing/*"] if case["mode"] == "exclude" else [])
-        obs_f = run_once(cid, rd, [opt, ",".join(items)], root)
+        if case.get("twin") and case["mode"] == "include":
+            items = items + [TWIN + ":99999"] if False else items
+        obs_f = run_once(cid, rd, [opt, ",".join(items)], root, case.get("twin"))
     if obs_f.res.exit != 0 or obs_f.res.report is None:
         st_.violation(cid, "filtered-run-fails", {"case": case}, json.dumps({"exit": obs_f.res.exit, "stderr": obs_f.res.stderr[-800:], "patterns": items}), features=["mode:" + case["mode"], "spelling:" + case["spelling"]])
         return st_.violations[v0:]
@@ -177,8 +219,15 @@ def eval_case(case, stats=None):
     if bad_forbidden:
         st_.violation(cid, "forbidden-line-rewritten", {"case": case}, json.dumps({"lines": bad_forbidden, **det})[:7000], features=feats)
     not_fixed = []
+    deleted_alias_sites = set(deleted_alias_sites)
     for l in sorted(permitted):
         s = status.get(l, ("other",))
+        if l in deleted_alias_sites:
+            if s[0] != "equal":
+                rewritten.add(l)
+            else:
+                not_fixed.append(l)
+            continue
         if s[0] == "replace" and s[2] == new_text[l]:
             rewritten.add(l)
         elif s[0] == "equal":
@@ -187,6 +236,13 @@ def eval_case(case, stats=None):
             st_.violation(cid, "permitted-line-rewritten-differently", {"case": case}, json.dumps({"line": l, "filtered": s[2], "unfiltered": new_text[l], **det})[:7000], features=feats)
     if not_fixed:
         st_.violation(cid, "permitted-line-not-fixed", {"case": case}, json.dumps({"lines": not_fixed, **det})[:7000], features=feats)
+    # the twin file (same path tail, other directory) is not named by a relative or absolute pattern
+    if case.get("twin") and spelling in ("relative", "absolute"):
+        tb, tu, tf = obs_u.before.get(TWIN), obs_u.after.get(TWIN), obs_f.after.get(TWIN)
+        if case["mode"] == "exclude" and tf != tu:
+            st_.violation(cid, "pattern-for-one-file-applied-to-same-named-file-elsewhere", {"case": case}, json.dumps({"twin": TWIN, "expected": (tu or ("", b""))[1].decode("utf-8", "replace")[:1500], "got": (tf or ("", b""))[1].decode("utf-8", "replace")[:1500], "patterns": items}), features=feats)
+        if case["mode"] == "include" and tf != tb:
+            st_.violation(cid, "file-not-named-by-include-line-pattern-rewritten", {"case": case}, json.dumps({"twin": TWIN, "patterns": items, "got": (tf or ("", b""))[1].decode("utf-8", "replace")[:1500]}), features=feats)
     # change entries
     entries = [ch.get("lineNumber") for r in obs_f.res.report["results"] for cs in r.get("changeset", []) if cs["path"] == rel for ch in cs.get("changes", [])]
     new_of = {l: status[l][1] for l in status if status[l][0] in ("equal", "replace")}
@@ -196,6 +252,10 @@ def eval_case(case, stats=None):
     # any other original line that did change (sites that are not 1->1, e.g. a def line that also gains a body
     # line) may legitimately be named too
     ok_numbers |= {l for l, s_ in status.items() if s_[0] != "equal" and l not in forbidden}
+    # ... and a line that is itself unchanged but has new lines inserted right after/before it (a fix that adds a statement)
+    for tag, i1, i2, j1, j2 in difflib.SequenceMatcher(a=before.split("\n"), b=after_f.split("\n"), autojunk=False).get_opcodes():
+        if tag == "insert":
+            ok_numbers |= {l for l in (i1, i1 + 1) if l not in forbidden}
     forb_numbers = set()
     for l in forbidden:
         forb_numbers |= {l, new_of.get(l, l)}
